@@ -1,7 +1,7 @@
 """C14 — periodic boundaries are seamless (translation invariance).
 
 Relational obligations on the real code: fvm1d.rhs is executed symbolically on data Q and on the
-data shifted cyclically by one cell, on the real uniform periodic mesh (symbolic ncell >= 6: the
+data shifted cyclically by one cell, on the uniform periodic mesh through its contract (C20; symbolic ncell >= 6: the
 five seam cells and a generic interior cell; ncell = 1..5 concrete), for every model and
 reconstruction; numflux through its contract (one pointwise function of the face states).
 Obligation: res'[k][i] == res[k][(i-1) mod n] at every cell.  A shift by any number of cells is a
@@ -45,6 +45,8 @@ def build(chk):
             for ncase in ("n>=6", 1, 2, 3, 4, 5):
                 if chk.tier == "quick" and ncase != "n>=6" and not (cls in ("extrapol2", "muscl") and (lim in (None, "minmod"))):
                     continue
+                if chk.tier == "quick" and not (cls in ("extrapol1", "extrapol2", "extrapolk", "muscl") and lim in (None, "minmod", "vanleer")):
+                    continue        # quick: one representative per reconstruction family; thorough: all
                 if kind == "nozzle" and cls not in ("extrapol2",):
                     continue     # same operator code as euler1d; the sources are checked with one reconstruction
                 cfg = "fvm1d/%s/%s/n=%s" % (kind, label, ncase)
@@ -57,9 +59,7 @@ def build(chk):
                         assume(n >= 6)
                     else:
                         n = ncase
-                    Lg, x0 = z3.Real("L"), z3.Real("x0")
-                    assume(Lg > 0)
-                    mesh = it.call(get(chk, "flowdyn.mesh", "unimesh"), [], {"ncell": n, "length": Lg, "x0": x0})
+                    mesh, hcell, x0 = abstract_unimesh(chk, n)
                     m, info = make_model(chk, kind, params={"Aconst": True})
                     num = make_num(chk, cls, limiter=lim)
                     disc = make_disc1d(chk, m, mesh, num)
